@@ -181,8 +181,44 @@ def restart_part(res):
                        "how_to_replay": "./check C09"})
 
 
+def poll_part(res):
+    """the PHC is chronyd's reference and its error-bound attribute reads back empty: that poll has no PHC component,
+    so whatever the poll loop does about it (today: it stops, and the daemon with it) no report reaches the writer as
+    a measurement - before and after a good poll alike"""
+    from props import _poller
+    rng = random.Random(res.seed * 47 + 9)
+    cfg = 0x50484330
+    scripts = []
+    for good_first in (0, 1, 2):
+        start = rng.randrange(10, 1000) * NS
+        t, steps = start + NS, []
+        for _ in range(good_first):
+            steps.append((t, 1, 1000, 0, rng.choice([0, 4321, 250000]), cfg, rng.randrange(1, 60000)))
+            t += NS + rng.randrange(NS)
+        steps.append((t, 1, rng.choice([0, 1000]), 0, -3, cfg, rng.randrange(1, 60000)))
+        scripts.append((start, cfg, steps))
+    lines = [_poller.line_of(*sc) for sc in scripts]
+    outs = c.run_lines_in_namespace(c.build_harness("debug")[0], lines, timeout=300)
+    bad = []
+    for sc, ln, o in zip(scripts, lines, outs):
+        res.evaluations += 1
+        res.count("gen:PHC attribute present but empty")
+        res.nontriv(ln)
+        got = [x for x in o.split() if not x.startswith("ORDER") and x != "POLLER-PANIC"]
+        k = len(sc[2]) - 1
+        if len(got) > k and got[k].startswith("D:"):
+            bad.append({"case": ln, "impl": o, "why": ["poll %d: the PHC is the reference and its error-bound attribute read back empty, yet the report was forwarded as a measurement (%s, "
+                                                       "PHC component %s) - the writer takes it for a synchronised measurement" % (k, got[k], got[k].split(":")[2])]})
+    res.oblige("a poll whose PHC error bound reads back empty forwards no measurement (%d scripts)" % len(lines), not bad)
+    if bad:
+        res.violation({"property": "C09", "kind": "history", "case": bad[0], "others": [b["case"] for b in bad[1:3]],
+                       "predicate": "a status other than Unknown is never published together with a bound that does not originate from a synchronised measurement",
+                       "how_to_replay": "./check C09"})
+
+
 def run(res, proofs_ok, proofs_why):
     restart_part(res)
+    poll_part(res)
     _updater.run_property("C09", res, proofs_ok, proofs_why)
     client_part(res)
     world_part(res)
